@@ -3,6 +3,7 @@
 //! Script steps (one per Wal.tla action):
 //!   Append{tok}        wal.append(CreateNode{tenant:"t", node_id:tok, labels:[], properties:[tok;tok]})
 //!   Flush              wal.flush()
+//!   SetSync{on}        wal.set_sync_mode(on)
 //!   Checkpoint         wal.checkpoint(wal.current_sequence())
 //!   Reopen             drop(wal) (BufWriter flushes) ; Wal::new(dir)
 //!   Truncate{b}        crash: everything the BufWriter still holds is lost, the newest file is cut at
@@ -104,6 +105,7 @@ fn run(scripts: &str, trace: &str, opts: &Opts) -> Res<()> {
                         Err(_) => json!(0),
                     };
                 }
+                "SetSync" => wal.as_mut().unwrap().set_sync_mode(step["on"].as_bool().unwrap()),
                 "Flush" => {
                     if let Err(e) = wal.as_mut().unwrap().flush() {
                         res = json!(class(&e));
